@@ -52,8 +52,22 @@ func (g *gen) fresh() [][]byte {
 	return txs
 }
 
-func (g *gen) submit(txs [][]byte) { g.line("submit id=%s txs=%s", hx.Hex(chainID), hx.HexList(txs)) }
-func (g *gen) next()               { g.line("next id=%s", hx.Hex(chainID)) }
+// ctx: now and then a call is made with a dead context (already cancelled / deadline in the past)
+func (g *gen) ctx() string {
+	switch p := g.r.Intn(100); {
+	case p < 8:
+		return " ctx=cancelled"
+	case p < 14:
+		return " ctx=expired"
+	case p < 16:
+		return " ctx=live"
+	}
+	return ""
+}
+func (g *gen) submit(txs [][]byte) {
+	g.line("submit id=%s txs=%s%s", hx.Hex(chainID), hx.HexList(txs), g.ctx())
+}
+func (g *gen) next() { g.line("next id=%s%s", hx.Hex(chainID), g.ctx()) }
 func (g *gen) drain()              { g.line("drain id=%s", hx.Hex(chainID)) }
 
 var maxima = []int{0, 1, 2, 3, 4, 6}
@@ -272,7 +286,7 @@ func (g *gen) malformed() {
 		"next", "next id=0g", "frobnicate x=1", "crash-submit at=2 id=- txs=01", "crash-submit id=- txs=01", "crash-next at=x id=-",
 		"crash-next id=-", "add txs=01", "qnext", "load", "qdrain", "drain", "drain id=q", "submit id=" + hx.Hex(chainID) + " txs=01,,02",
 		"submit id=" + hx.Hex(chainID) + " txs=01,0", "next id=" + hx.Hex(chainID) + " extra=1", "restart now=1",
-		"restart max=-1", "restart max=", "restart max=1000000", "fail put=x", "fail del=1x", "fail", "fail put=1 del=", "crash-next at=1 id=- max=zz",
+		"next id=- ctx=dead", "submit id=- txs=01 ctx=", "next id=- ctx=Cancelled", "restart max=-1", "restart max=", "restart max=1000000", "fail put=x", "fail del=1x", "fail", "fail put=1 del=", "crash-next at=1 id=- max=zz",
 		"crash-submit at=0 id=- txs=01 max=", "submit id=" + hx.Hex(chainID) + " txs=.,.", "submit id=" + hx.Hex(chainID) + " txs=.", "submit id=" + hx.Hex(chainID) + " txs=AB,cd",
 	}
 	for _, i := range g.r.Perm(len(junk)) {
@@ -388,6 +402,15 @@ func (g *gen) fixed() {
 	g.next()
 	g.next()
 	g.next()
+	// calls with a dead context: the answer does not depend on it, nothing is lost
+	g.reset("seq", 0)
+	for _, x := range three {
+		g.line("submit id=%s txs=%s ctx=cancelled", id, hx.HexList(x))
+	}
+	g.line("next id=%s ctx=cancelled", id)
+	g.line("next id=%s ctx=expired", id)
+	g.line("restart")
+	g.drain()
 	// a transient Put error: refused, nothing stored, the retry is accepted; a restart in between
 	g.reset("seq", 2)
 	g.line("fail put=1 del=0")
